@@ -353,14 +353,24 @@ Proof.
 Qed.
 
 (* ---- small definitional facts used as theorems ------------------------------------------- *)
-Lemma mc_per_channel : forall cls u c rest,
-  mc_elem (leaf_method (MDirect cls)) (Scalar (U u c)) rest = multi_new (new1_plain cls 1) (Scalar (U u c) :: rest) /\
-  mc_elem (leaf_method (MClip cls)) (Scalar (U u c)) rest = multi_new (new1_plain cls 1) (Scalar (U u c) :: rest).
-Proof. intros; split; reflexivity. Qed.
+Lemma mc_per_channel : forall b u c rest st,
+  mc_elem (leaf_method (MClip b)) (Scalar (U u c)) rest st =
+    match unit_rate st u with
+    | RDemand => Err AttributeError
+    | r => multi_new (new1_plain (with_rate b r) 1) (Scalar (U u c) :: rest) st
+    end /\
+  mc_elem (leaf_method (MDirect b)) (Scalar (U u c)) rest st =
+    match unit_rate st u with
+    | RScalar | RDemand => Err AttributeError
+    | r => multi_new (new1_plain (with_rate b r) 1) (Scalar (U u c) :: rest) st
+    end.
+Proof. intros. split; simpl; destruct (unit_rate st u); reflexivity. Qed.
 Lemma cl_dup_eq : forall self n st, cl_dup self n st = Ok (Lst (repeat (Lst self) n)) st.
 Proof. reflexivity. Qed.
-Lemma cl_poll_eq : forall poll imp self trig label tid defl st,
+Lemma cl_poll_eq : forall poll imp self trig label tid defl st rs,
+  rates_of st self = Some rs ->
   cl_poll poll imp self trig label tid defl st =
-  bind (multi_new (poll_new1 poll imp) [trig; Lst self; if is_none label then Lst defl else label; tid])
+  bind (multi_new (poll_new1 poll imp)
+          [unbubble (Lst rs); trig; Lst self; if is_none label then Lst defl else label; tid])
        (fun _ => ret (Lst self)) st.
-Proof. reflexivity. Qed.
+Proof. intros. unfold cl_poll. rewrite H. reflexivity. Qed.
